@@ -137,9 +137,8 @@ def rule_converter(ctx: Ctx) -> None:
     """convert_label / convert_name: lower-cased comparison, no raising path, UNKNOWN fallback."""
     for fname in ("convert_label", "convert_name"):
         fi = ctx.func(LABEL + "LabelConverter." + fname)
-        en = Enumerator(ctx.index, ctx.resolver, Options())
-        paths = en.function(fi)
-        ctx.paths_enumerated += len(paths)
+        from rules.common import enum_paths as _ep0
+        paths = _ep0(ctx, fi)  # helpers that do not exist in the reference tree are inlined
         rk = f"C14-total:{fname}"
         raising = [p for p in paths if p.exit and p.exit[0] == "raise"]
         ctx.check(not raising, "C14-total", fname, "no-raise", f"{fname} has a raising path ({raising[0].exit[1] if raising else ''}): conversion must never fail", fi=fi)
@@ -182,28 +181,44 @@ def rule_converter(ctx: Ctx) -> None:
                     cur = PARENTS.get(id(cur))
                 ctx.check(guarded, "C14-total", fname, f"keyerror:{sub.value.attr}", f"{fname} updates `self.{sub.value.attr}[{key}]` in place although `self.{sub.value.attr}` starts as an empty dict and nothing guarantees the key: "
                           "KeyError for a name seen for the first time - conversion must never fail (unregistered names map to unknown)", fi=fi, expected=f"self.{sub.value.attr}.get({key}, 0) + 1 / a guard", found=U(nd)[:100])
-        # decision structure: a table entry whose name matches yields ITS label; a non-matching entry changes nothing; UNKNOWN iff nothing matched
+        # decision structure: a table entry whose name matches yields ITS label; a non-matching entry changes nothing; UNKNOWN iff nothing matched.
+        # Written either with a result variable that is tested after the loop or with an early return inside the loop - the variable's name is irrelevant.
         from rules.common import enum_paths as _ep
+        fallback = "Label(self.label_type.UNKNOWN,name,attributes)" if fname == "convert_label" else "self.label_type.UNKNOWN"
         for p in _ep(ctx, fi):
             lps = [e for e in p.effects if e.kind == "loop"]
             if len(lps) != 1:
                 continue
             ent = U(lps[0].node.target)
             want_hit = f"Label({ent}.label,name,attributes)" if fname == "convert_label" else f"{ent}.label"
+            result_vars = set()
             for bp in lps[0].body:
                 hit = next((v for k, v in bp.conds if strip_v(k).replace(" ", "") in (f"same:{ent}.name==name.lower()", f"same:name.lower()=={ent}.name")), None)
                 if hit is None:
                     continue
-                got = bp.env.get("return_label")
-                gt_ = strip_v(U(got)).replace(" ", "") if got is not None else None
+                assigned = {k: strip_v(U(v)).replace(" ", "") for k, v in bp.env.items() if k not in lps[0].pre or U(lps[0].pre[k]) != U(v)}
+                assigned = {k: v for k, v in assigned.items() if v == want_hit or "label" in v.lower() or v == "None"}
+                returned = strip_v(U(bp.retval)).replace(" ", "") if bp.exit and bp.exit[0] == "return" and bp.retval is not None else None
                 if hit:
-                    ctx.check(gt_ == want_hit, "C14-case", fname, "hit", f"{fname}: for a table entry whose name equals the lower-cased query the result becomes `{gt_}`; expected `{want_hit}`", fi=fi, expected=want_hit, found=str(gt_))
+                    vs = [k for k, v in assigned.items() if v == want_hit]
+                    if returned is None:
+                        result_vars |= set(vs)
+                    ok_hit = bool(vs) or returned == want_hit
+                    ctx.check(ok_hit and (returned in (None, want_hit)), "C14-case", fname, "hit", f"{fname}: for a table entry whose name equals the lower-cased query the result becomes {assigned or returned}; expected `{want_hit}`", fi=fi, expected=want_hit, found=str(assigned or returned))
                 else:
-                    ctx.check(gt_ is None, "C14-case", fname, "miss", f"{fname}: a table entry whose name does NOT match sets the result to `{gt_}`", fi=fi, expected="unchanged", found=str(gt_))
-            none_after = next((v for k, v in p.conds if strip_v(k).replace(" ", "") == "none:return_label"), None)
-            ctx.require(none_after is not None, f"{fname}: the `nothing matched` test (return_label is None) was not recognised")
+                    ctx.check(not assigned and returned is None, "C14-case", fname, "miss", f"{fname}: a table entry whose name does NOT match sets / returns {assigned or returned}", fi=fi, expected="unchanged", found=str(assigned or returned))
+            if p.exit and p.exit[0] == "return" and any(str(c[0]).startswith("loop-exit:") for c in p.conds if isinstance(c, tuple)):
+                continue  # the early return from inside the loop, checked above
             rv = strip_v(U(p.retval)).replace(" ", "") if p.retval is not None else None
-            want_rv = ("Label(self.label_type.UNKNOWN,name,attributes)" if fname == "convert_label" else "self.label_type.UNKNOWN") if none_after else "return_label"
+            nones = {strip_v(k).replace(" ", "")[5:]: v for k, v in p.conds if strip_v(k).startswith("none:")}
+            if result_vars:
+                v = sorted(result_vars)[0]
+                none_after = nones.get(v)
+                ctx.require(none_after is not None, f"{fname}: the `nothing matched` test ({v} is None) was not recognised")
+                want_rv = fallback if none_after else v
+            else:
+                none_after = True
+                want_rv = fallback  # early-return style: whatever reaches the end of the loop matched nothing
             ctx.check(rv == want_rv, "C14-fallback", fname, f"after-loop:none={int(bool(none_after))}", f"{fname}: when {'nothing' if none_after else 'an entry'} matched the function returns `{rv}`; expected `{want_rv}`", fi=fi,
                       expected=want_rv, found=str(rv))
         # every non-raising exit returns either a table label or the UNKNOWN fallback
@@ -293,20 +308,24 @@ def rule_dispatch(ctx: Ctx) -> None:
             E = not cdt.get("truthy:target_labels")
             if N is None:
                 N = E  # `not target_labels` covers both
+        # what is returned: all labels of the converter's family, or the named labels resolved one by one with convert_name, in order
+        lps2 = [e for e in p.effects if e.kind == "loop"]
+        maps_names = False
+        if lps2 and strip_v(lps2[0].text if isinstance(lps2[0].text, str) else U(lps2[0].text)).replace(" ", "") == "target_labels":
+            tv = U(lps2[0].node.target)
+            maps_names = all([(a.recv, strip_v(U(a.args[0])).replace(" ", "")) for a in __import__("rules.common", fromlist=["appends"]).appends(bp)] == [(strip_v(rv), f"label_converter.convert_name({tv})")] and not bp.conds for bp in lps2[0].body)
+        rvt = rv.replace(" ", "")
+        is_all = rvt in ("[labelforlabelinlabel_converter.label_type]", "list(label_converter.label_type)") or (rvt.startswith("[") and rvt.endswith("inlabel_converter.label_type]") and "convert_" not in rvt and "if" not in rvt.split("for", 1)[1])
+        is_map = maps_names or (rvt.startswith("[label_converter.convert_name(") and rvt.endswith("intarget_labels]") and "if" not in rvt.split("for", 1)[1])
         if p.exit == ("return",):
-            out_all = "label_converter.label_type" in rv and "convert_" not in rv
+            ctx.check(is_all or is_map, "C14-targets", "set_target_lists", "mapping" if not is_all else f"default:{p.cond_text()[:50]}",
+                      f"set_target_lists returns `{rv[:100]}`; expected either every label of the converter's family or label_converter.convert_name(name) for every given name, in order", fi=st)
+            out_all = is_all
             for n_ in ([N] if N is not None else [True, False]):
                 for e_ in ([E] if E is not None else ([False] if n_ else [True, False])):
                     want_all = bool(n_ or e_)
                     ctx.check(out_all == want_all, "C14-targets", "set_target_lists", f"all-iff-absent:none={int(bool(n_))},empty={int(bool(e_))}",
                               f"with target names {'None' if n_ else 'empty' if e_ else 'given'} the function returns `{rv[:80]}`; all labels exactly when no name is given, otherwise the named ones", fi=st)
-        given = any(k.startswith("truthy:target_labels") and v for k, v in p.conds) or any(k == "none:target_labels" and not v for k, v in p.conds) and "convert" in rv
-        if "for name in target_labels" in rv or "convert_" in rv:
-            ctx.check("label_converter.convert_name(name)" in rv, "C14-targets", "set_target_lists", "mapping",
-                      f"target names are resolved with `{rv}` instead of label_converter.convert_name(name)", fi=st)
-        else:
-            ctx.check("label_converter.label_type" in rv, "C14-targets", "set_target_lists", f"default:{p.cond_text()[:50]}",
-                      f"without target names the function returns `{rv}` instead of all labels of the converter's type", fi=st)
     ctx.min_instances("C14-targets", 2)
 
 
